@@ -237,6 +237,27 @@ def every_prefix(ctx, rr):
             for r in bad[:1]:
                 rr.fail(ctx.finding('R-EVERY-PREFIX', u, lp, '%s can skip one of the prefixes it was given without walking it: pages below that prefix are missing from the '
                                     'answer' % u.qual, detail={'row': r.show()[:400]}))
+            # the loop runs over the whole list the request was given: no filtered copy
+            it_names = {x.id for x in ast.walk(lp.iter) if isinstance(x, ast.Name)}
+            for a in P.own(u, ast.Assign):
+                for t in a.targets:
+                    if isinstance(t, ast.Name) and t.id in it_names and isinstance(a.value, (ast.ListComp, ast.GeneratorExp, ast.SetComp)) \
+                            and any(g.ifs for g in a.value.generators):
+                        rr.ob(ctx.where(u, a), '%s walks the full prefix list' % u.qual, ok=False)
+                        rr.fail(ctx.finding('R-EVERY-PREFIX', u, a, '%s drops some of the prefixes it was given before walking them (`%s`): the bounded walk stops at every node '
+                                            'that carries a webentity, also the webentity\'s own nested prefixes, so pages below a dropped prefix are missing'
+                                            % (u.qual, ast.unparse(a)[:80]), stmt='%s: filtered prefix list' % u.qual))
+                    if isinstance(t, ast.Name) and t.id in it_names and isinstance(a.value, ast.Call) and isinstance(a.value.func, ast.Name) and a.value.func.id == 'filter':
+                        rr.fail(ctx.finding('R-EVERY-PREFIX', u, a, '%s filters the prefixes it was given before walking them' % u.qual, stmt='%s: filtered prefix list' % u.qual))
+            # page and link queries of one webentity use the walk that stops at other webentities
+            if name not in ('get_webentity_child_webentities_iter', 'get_webentity_parent_webentities'):
+                used = {c.func.attr for c in ast.walk(lp) if isinstance(c, ast.Call) and isinstance(c.func, ast.Attribute) and c.func.attr in walks}
+                okw = used <= {'webentity_dfs_iter', 'webentity_inorder_iter'}
+                rr.ob(ctx.where(u, lp), '%s walks each prefix with the bounded (per-webentity) walk: %s' % (u.qual, sorted(used)), ok=okw)
+                if not okw:
+                    rr.fail(ctx.finding('R-EVERY-PREFIX', u, lp, '%s walks its prefixes with %s instead of the bounded walk: the walk does not stop at nested webentities, so pages and '
+                                        'links of child webentities are attributed to this one' % (u.qual, sorted(used - {'webentity_dfs_iter', 'webentity_inorder_iter'})),
+                                        stmt='%s: unbounded walk' % u.qual))
     rr.require(n, 8, 'per-prefix loops')
 
 
